@@ -366,7 +366,7 @@ Example null_parent_skipped :
   merge_with_path
     (JObj [(n_items, JArr [JObj [(n_top, JObj [(w_a, JStr w_1)])]; JObj [(n_top, JNull)]; JObj [(n_top, JObj [(w_a, JStr w_2)])]])])
     (JObj [(name_result, JArr [JObj [(n_cnt, JNum w_1)]; JObj [(n_cnt, JNum w_2)]])])
-    [n_items; n_top; n_cnt]
+    [n_items; n_top; n_cnt] None
   = Ok (JObj [(n_items, JArr [JObj [(n_top, JObj [(w_a, JStr w_1); (n_cnt, JNum w_1)])];
                               JObj [(n_top, JNull)];
                               JObj [(n_top, JObj [(w_a, JStr w_2); (n_cnt, JNum w_2)])]])]).
